@@ -457,7 +457,7 @@ def run(ctx):
                   "%s decides on the size (`%s`) although the smallest payload it can build needs only %d bytes (%s): well-formed messages of "
                   "that kind which end at the end of the buffer yield no packet" %
                   (f.name, canon(worst[0])[:80] if worst else "", least, ", ".join(r.split("::")[-1] for r in sorted(built))))
-    if nsz < 4:
+    if nsz < 2:  # HandlePayload and GetDataPayload at least (the per-kind Get…Payload helpers may be folded into them)
         raise Broken("TECMP dispatchers taking (data, size) not found (%d)" % nsz)
     # ---- R4c a field shorter than the integer it is read into: the bytes the copy does not reach are zero (the value is the field's, not
     # the field's plus whatever the local started with)
